@@ -744,6 +744,110 @@ func TestC17Concurrent(t *testing.T) {
 }
 
 // ---------------------------------------------------------------------------------------------
+// failing storage
+
+func recordFault(c FaultCase, info FaultInfo) {
+	vstat.For(prop).Case(info.Fired > 0, vstat.Hash(c)^0x7f4a7c15, func() any { return c }, info.Classes()...)
+	vstat.For(prop).AddExtra("storage_calls_failed_by_injection", int64(info.Fired))
+	vstat.For(prop).AddExtra("reopen_snapshots_compared", int64(info.Snapshots))
+}
+
+// faultSetups bring a small allocator into the states in which the sites differ: fresh, first segment full (the
+// next ArrangeBlock reads a second header), full, full with a hole in the last segment.
+var faultSetups = [][]FaultOp{
+	nil,
+	{{K: "A", N: 7}},
+	{{K: "A", N: 7}, {K: "f", N: 2}, {K: "a"}},
+	{{K: "A", N: -1}},
+	{{K: "A", N: -1}, {K: "f", N: 12}},
+	{{K: "A", N: 4}, {K: "b", N: 1}, {K: "b", N: 3}, {K: "f", N: 0}},
+}
+
+// faultProbes: every call kind; At selects the storage call of the op.
+var faultProbes = []FaultOp{
+	{K: "a"}, {K: "a", At: 2}, {K: "a", Len: 9}, {K: "A", N: 3, At: 2}, {K: "A", N: -1, At: 3, Len: 2},
+	{K: "f", N: 1}, {K: "ff", N: 1}, {K: "fo"}, {K: "fn"}, {K: "D", At: 2}, {K: "b", N: 1}, {K: "b", N: 9}, {K: "bo"},
+	{K: "r"}, {K: "r", At: 2}, {K: "c"}, {K: "g", N: 1}, {K: "g"},
+}
+
+func genFaultCase(t *rapid.T) FaultCase {
+	var c FaultCase
+	c.BS = rapid.SampledFrom([]int{1, 1, 2, 2, 4, 8, 16, 64}).Draw(t, "bs")
+	c.Segs = rapid.IntRange(1, 3).Draw(t, "segs")
+	c.Fit = rapid.Bool().Draw(t, "fit")
+	if !c.Fit {
+		c.Over = genOver(t, c.BS, false)
+	}
+	kinds := []string{"a", "a", "a", "A", "A", "f", "f", "ff", "fo", "fn", "D", "b", "b", "bo", "r", "r", "c", "g"}
+	n := rapid.IntRange(1, 40).Draw(t, "nops")
+	for i := 0; i < n; i++ {
+		op := FaultOp{K: rapid.SampledFrom(kinds).Draw(t, "k")}
+		switch op.K {
+		case "A":
+			op.N = rapid.OneOf(rapid.Just(-1), rapid.Just(c.BS*8-1), rapid.Just(c.BS*8-2), rapid.IntRange(0, 3*c.BS*8)).Draw(t, "n")
+		case "D", "g":
+			op.N = rapid.IntRange(0, 1).Draw(t, "n")
+		case "bo":
+			op.N = rapid.IntRange(-3, 3).Draw(t, "n")
+		default:
+			op.N = rapid.IntRange(0, 3*c.BS*8).Draw(t, "n")
+		}
+		if rapid.IntRange(0, 2).Draw(t, "faulty") == 0 {
+			op.At = rapid.SampledFrom([]int{1, 1, 1, 2, 2, 3, 5}).Draw(t, "at")
+			op.Len = rapid.SampledFrom([]int{1, 1, 1, 2, 3, 1000}).Draw(t, "len")
+			op.Err = rapid.IntRange(0, NumFaultErrs-1).Draw(t, "err")
+			op.Shape = rapid.IntRange(0, NumFaultShapes-1).Draw(t, "shape")
+		}
+		c.Ops = append(c.Ops, op)
+	}
+	return c
+}
+
+// TestC17Fault: the storage under the allocator fails. A grid (every error of the vocabulary x every shape x every
+// call kind x a few allocator states, on two tiny geometries) and random op lists.
+func TestC17Fault(t *testing.T) {
+	st := vstat.For(prop)
+	if shard, shards := vstat.Shard(); true {
+		n, k := 0, 0
+		reported := map[string]bool{}
+		for _, geo := range []FaultCase{{BS: 1, Segs: 2, Fit: true}, {BS: 2, Segs: 3, Over: 5}} {
+			for _, setup := range faultSetups {
+				for _, probe := range faultProbes {
+					for ei := 0; ei < NumFaultErrs; ei++ {
+						for sh := 0; sh < NumFaultShapes; sh++ {
+							if k++; k%shards != shard {
+								continue
+							}
+							c := geo
+							p := probe
+							p.At, p.Err, p.Shape = max(p.At, 1), ei, sh
+							c.Ops = append(append(append([]FaultOp(nil), setup...), p), FaultOp{K: "a"}, FaultOp{K: "A", N: -1})
+							info, v := RunFault(c)
+							if v != nil && !reported[v.Sig] {
+								reported[v.Sig] = true
+								name := "TestC17Fault." + strings.TrimPrefix(v.Sig, "blocks:")
+								t.Run(name, func(t *testing.T) { st.Report(t, name, c, v) })
+							}
+							recordFault(c, info)
+							n++
+						}
+					}
+				}
+			}
+		}
+		st.SetExhaustive(fmt.Sprintf("failing_storage_grid_shard%d", shard), map[string]any{"errors": NumFaultErrs, "shapes": NumFaultShapes, "probes": len(faultProbes), "states": len(faultSetups), "geometries": 2, "cases": n})
+	}
+	t.Run("rapid", func(t *testing.T) {
+		rapid.Check(t, func(t *rapid.T) {
+			c := genFaultCase(t)
+			info, v := RunFault(c)
+			st.Report(t, "TestC17Fault", c, v)
+			recordFault(c, info)
+		})
+	})
+}
+
+// ---------------------------------------------------------------------------------------------
 
 func TestReplay(t *testing.T) {
 	p := vstat.ReplayPath()
@@ -764,6 +868,14 @@ func TestReplay(t *testing.T) {
 		info, v := RunCtor(c)
 		st.Report(t, "TestReplay", c, v)
 		recordCtor(c, info)
+	case strings.HasPrefix(env.Test, "TestC17Fault"):
+		var c FaultCase
+		if err := json.Unmarshal(env.Case, &c); err != nil {
+			t.Fatalf("cannot decode the case of %s: %v", p, err)
+		}
+		info, v := RunFault(c)
+		st.Report(t, "TestReplay", c, v)
+		recordFault(c, info)
 	case env.Test == "TestC17Concurrent":
 		var c ConcCase
 		if err := json.Unmarshal(env.Case, &c); err != nil {
